@@ -113,6 +113,7 @@ class INIT_DATACLASS:
                "one_level_deeper": "result.__context__.depth == %s + 1" % _DEPTH_IN,
                "own_options": "result.__context__.options is cls.__parser__.options"}
     result_fields = {}
+    comprehensions = {0: "lambda key, r: truthy(r) == isinst(key, str)"}       # the key check: one verdict per key
     only_raises = ["ParseError"]
     frame = ["cls"]
     assumes = ["options argument not given (a runtime Options replaces the class options; same chain)",
